@@ -5,7 +5,8 @@ import sys
 import time
 
 VERIF = os.path.dirname(os.path.dirname(os.path.abspath(__file__)))
-EVIDENCE_DIR = os.path.join(VERIF, 'evidence')
+EVIDENCE_DIR = os.environ.get('VERIF_EVIDENCE_DIR') or os.path.join(
+    VERIF, 'evidence')
 KNOWN_FILE = os.path.join(VERIF, 'known_findings.json')
 
 
